@@ -1,5 +1,31 @@
 U = 'src/utilities/qencode.c'
+R = 'weave/rules/qencode.json'
+
+def eg(name, harness, entry, funcs, props, weave_funcs=None, **kw):
+    d = dict(name=name, harness=harness, entry=entry, unwind=2, props=props, functions=funcs, units=[U],
+             strength='proof', timeout=300, bound='none (any length up to 10^6)')
+    if weave_funcs:
+        d['weave'] = {U: {'rules': R, 'funcs': weave_funcs}}
+    d.update(kw)
+    return d
+
 GROUPS = [
-    dict(name='hex_encode', harness='qencode/hex.c', entry='h_hex_encode', weave={U: {'rules': 'weave/rules/qencode.json', 'funcs': ['qhex_encode']}},
-         unwind=2, props=['C16', 'C11', 'C12'], functions=['qhex_encode'], units=[U], strength='proof', timeout=300),
+    eg('hex_encode', 'qencode/hex.c', 'h_hex_encode', ['qhex_encode'], ['C16', 'C11', 'C12'], ['qhex_encode']),
+    eg('hex_decode', 'qencode/hex.c', 'h_hex_decode', ['qhex_decode'], ['C16', 'C17'], ['qhex_decode']),
+    eg('hex_roundtrip', 'qencode/hex.c', 'h_hex_roundtrip', ['qhex_encode', 'qhex_decode'], ['C16'], ['qhex_encode', 'qhex_decode']),
+    eg('hex_tables', 'qencode/hex.c', 'h_hex_tables', [], ['C16'], mode='unwind', bound='none (loop-free, all 256 byte values)'),
+    eg('url_encode', 'qencode/url.c', 'h_url_encode', ['qurl_encode'], ['C16', 'C11', 'C12'], ['qurl_encode'], units=[U, 'src/internal/qinternal.c']),
+    eg('url_decode', 'qencode/url.c', 'h_url_decode', ['qurl_decode', '_q_x2c'], ['C16', 'C17'], ['qurl_decode'], units=[U, 'src/internal/qinternal.c']),
+    eg('url_byte_roundtrip', 'qencode/url.c', 'h_url_byte_roundtrip', ['qurl_encode', 'qurl_decode', '_q_x2c'], ['C16'], mode='unwind', unwind=6,
+       units=[U, 'src/internal/qinternal.c'], bound='none for the per-byte claim: a single fully symbolic byte, all loops completely unwound (unwinding assertions on)'),
+    eg('url_roundtrip_bounded', 'qencode/url.c', 'h_url_roundtrip_bounded', ['qurl_encode', 'qurl_decode', '_q_x2c'], ['C16'], mode='unwind', unwind=30,
+       units=[U, 'src/internal/qinternal.c'], strength='bounded', bound='input strings of length URLN (quick 1..4, thorough 1..8), every byte value',
+       instances=[dict(URLN=i) for i in range(1, 5)] + [dict(URLN=i, tier='thorough') for i in range(5, 9)]),
+    eg('b64_decode_safe', 'qencode/b64.c', 'h_b64_decode_safe', ['qbase64_decode'], ['C17'], ['qbase64_decode'], units=[U, 'src/internal/qinternal.c']),
+    eg('b64_roundtrip_bounded', 'qencode/b64.c', 'h_b64_roundtrip_bounded', ['qbase64_encode', 'qbase64_decode'], ['C16'], mode='unwind', unwind=20,
+       units=[U, 'src/internal/qinternal.c'], strength='bounded', bound='input length B64N bytes (quick 1..6, thorough 1..12), every byte value',
+       instances=[dict(B64N=i) for i in range(1, 7)] + [dict(B64N=i, tier='thorough') for i in range(7, 13)]),
+    dict(name='makeword', harness='qencode/b64.c', entry='h_makeword', unwind=2, props=['C17', 'C12'], functions=['_q_makeword'],
+         units=[U, 'src/internal/qinternal.c'], strength='proof', timeout=300, bound='none (any length up to 10^6)',
+         weave={'src/internal/qinternal.c': {'rules': 'weave/rules/qinternal.json'}}),
 ]
